@@ -302,6 +302,16 @@ func (eval Evaluator) matchScaleThenEvaluateInPlace(level int, el0 *rlwe.Ciphert
 
 	r0, r1, _ := eval.matchScalesBinary(el0.Scale.Uint64(), el1.Scale.Uint64())
 
+	// If the receiver is also the second operand, it is overwritten below before
+	// being read: works on a copy of the second operand.
+	el1Value := el1.Value
+	if el1 == elOut.El() {
+		el1Value = make([]ring.Poly, len(el1.Value))
+		for i := range el1Value {
+			el1Value[i] = *el1.Value[i].CopyNew()
+		}
+	}
+
 	for i := range el0.Value {
 		eval.parameters.RingQ().AtLevel(level).MulScalar(el0.Value[i], r0, elOut.Value[i])
 	}
@@ -310,8 +320,8 @@ func (eval Evaluator) matchScaleThenEvaluateInPlace(level int, el0 *rlwe.Ciphert
 		elOut.Value[i].Zero()
 	}
 
-	for i := range el1.Value {
-		evaluate(el1.Value[i], r1, elOut.Value[i])
+	for i := range el1Value {
+		evaluate(el1Value[i], r1, elOut.Value[i])
 	}
 
 	elOut.Scale = el0.Scale.Mul(eval.parameters.NewScale(r0))
